@@ -124,10 +124,21 @@ pub fn run(s: &mut Session, ctx: &Ctx) {
         }
         s.check((got - want).abs() <= 1e-4, "matches-published-table", "delta_e::ciede2000", || format!("{} {}", show(*p), show(*q)), || format!("got {:?}, published {:?}", got, want));
     }
-    for _ in 0..n {
+    for i in 0..n {
         let p = lab_point(&mut rng);
         let q = partner(&mut rng, p);
         pairs.push((p, q));
+        // symmetric inputs: the partner is a permutation of the point's own coordinates; the next pair is an
+        // identical pair, the one after it the same pair with two coordinates exchanged (a function of its
+        // inputs gives 0 for the one and its own value for the other, whatever was computed before)
+        if i % 16 == 0 {
+            let perm = match (i / 16) % 3 { 0 => [p[1], p[2], p[0]], 1 => [p[2], p[0], p[1]], _ => [p[0], p[2], p[1]] };
+            pairs.push((p, perm));
+            let z = lab_point(&mut rng);
+            pairs.push((z, z));
+            pairs.push((p, perm));
+            pairs.push(([p[0], p[2], p[1]], perm));
+        }
     }
     for (i, (p, q)) in pairs.iter().enumerate() {
         let (p, q) = (*p, *q);
